@@ -11,8 +11,9 @@ band (also for zero iterations) and re-injects the carried state before every it
 formalisation of the documented tracing model (control_flow.md, operators/control_flow.py docstring) — a
 modelling choice, validated against a real backend of this shape on every run of the check.
 
-* `functional_correct`: source run vs tracing run, for **pure** programs (no external call anywhere —
-  decidable `pureB`), under the hypotheses of `control_flow_correct` plus three facts about the state tuple that
+* `functional_correct`: source run vs tracing run, for **pure** programs (no external call anywhere, and — for the
+  functional theorems only — no `with` (its enter/exit are logged events) and no `try` (an exception raised by an
+  out-of-band run could be caught by a handler, which the source run never sees): decidable `pureB`), under the hypotheses of `control_flow_correct` plus three facts about the state tuple that
   `_get_block_vars` guarantees (`HypFB`: no duplicates, `declared ⊆ modified`, entries after the first `nouts`
   are not live after the conditional).  Whenever the tracing run ends without an exception it ends exactly like
   the original: same outcome, live-out variables agree.
@@ -50,8 +51,8 @@ theorem functional_correct (X : Ext) (p : ABlock) (D O : List Name) (hyp : FuncH
     (n : Nat) (o : Out) (σ₁ : St) (hsrc : execB X n (eraseB p) σ = some (o, σ₁))
     (m : Nat) (oF : Out) (σF : TSt) (hrun : execFB X m (funcB p) σ' = some (oF, σF)) :
     IsExc oF ∨ (oF = o ∧ σF.log = σ₁.log ∧ (o = .normal → Agree O σ₁ σF)) := by
-  have hok : OkB D O p := ⟨hyp.live, hyp.decl, hyp.defd, hyp.jump, hF.hypf, hF.pure⟩
-  rcases (f_all X n).2.1 p D O σ σ' o σ₁ m oF σF hok hag hb hsrc hrun with h | ⟨h1, h2⟩
+  have hok : OkB ExcCtx.top D O p := ⟨hyp.live, hyp.decl, hyp.defd, hyp.jump, hF.hypf, hF.pure⟩
+  rcases (f_all X n).2.1 p ExcCtx.top D O σ σ' o σ₁ m oF σF hok hag hb hsrc hrun with h | ⟨h1, h2⟩
   · exact Or.inl h
   · exact Or.inr ⟨h1, h2.1, h2.2⟩
 
@@ -102,7 +103,7 @@ theorem C02_state_complete (p : ABlock) (O : List Name) (hl : LiveConsistent p O
       (v ∈ s.info.liveOut → v ∈ s.info.declared.take s.info.nouts) := by
   intro s hs hc v hv
   have hf := bv1_facts hc (hu s hs)
-  have hlive := liveB_of_mem p O hl s hs
+  obtain ⟨K', hlive⟩ := liveB_of_mem ExcCtx.top p O hl s hs
   have hin : v ∈ s.info.liveOut ∨ v ∈ s.info.liveIn → v ∈ s.info.declared := by
     intro h
     apply hf.1
